@@ -2,6 +2,8 @@ package drv
 
 import (
 	"fmt"
+	"os"
+	"path/filepath"
 	"strings"
 	"sync"
 
@@ -232,6 +234,52 @@ func init() {
 			}(g)
 		}
 		wg.Wait()
+		// lexers made from files (NewLexerFile), one file per goroutine, concurrently: every token must name its own file
+		if im.LexFile != nil {
+			if dir, err := os.MkdirTemp("", "verif-lexfile"); err == nil {
+				var terms []string
+				for _, t := range ref.NewCFG(it.G).Terms {
+					if t != "error" && t != "" {
+						terms = append(terms, t)
+					}
+				}
+				paths := make([]string, 16)
+				for g := range paths {
+					body := ""
+					for k := 0; k <= g%5; k++ {
+						for _, t := range terms {
+							body += string(t[0])
+						}
+					}
+					paths[g] = filepath.Join(dir, fmt.Sprintf("unit%02d.src", g))
+					os.WriteFile(paths[g], []byte(body), 0o666)
+				}
+				got := make([][]string, 16)
+				var wg3 sync.WaitGroup
+				for g := 0; g < 16; g++ {
+					wg3.Add(1)
+					go func(g int) {
+						defer wg3.Done()
+						for round := 0; round < 20; round++ {
+							s, _ := im.LexFile(paths[g])
+							got[g] = append(got[g], s)
+						}
+					}(g)
+				}
+				wg3.Wait()
+				for g := 0; g < 16; g++ {
+					want, _ := im.LexFile(paths[g])
+					for _, s := range got[g] {
+						st.add("file_lexer_runs", 1)
+						if s != want {
+							st.violation("C17", fmt.Sprintf("%s race lexfile %d", it.ID, g), fmt.Sprintf("free-running goroutine %d: the lexer made by NewLexerFile(%s) gives %s; alone %s", g, filepath.Base(paths[g]), clipStr(s, 300), clipStr(want, 300)), map[string]any{"file": filepath.Base(paths[g])})
+							break
+						}
+					}
+				}
+				os.RemoveAll(dir)
+			}
+		}
 		// the token package's accessors (what semantic actions call on their tokens), concurrently on tokens of the
 		// goroutines' own making - some spellings shared, some unique per goroutine - then compared with a sequential call
 		if im.TokenAPI != nil {
